@@ -138,4 +138,20 @@ PROPS = {
             "two recorded findings bound the theorem: known_F20c (chunked read-ahead) and known_F21 (failed discard of a malformed body goes unnoticed); both have machine-checked witnesses in Properties/C07.v",
         ],
     },
+    'C16': {
+        'streams': ['modes'],
+        'shrink': {},
+        'assumptions': [
+            "partial: the accept loops are modelled above the per-connection functions (Model/Modes.v); connections are independent (no more open connections than workers); thread scheduling inside a mode is covered for epoll by C14/C15",
+            "recorded finding F28: in epoll mode connections that are idle when the setup hook answers StopAccepting are abandoned without teardown; the harness histories close every connection before stopping",
+        ],
+    },
+    'C17': {
+        'streams': ['modes'],
+        'shrink': {},
+        'assumptions': [
+            "socket timeouts are outside the model; histories use none",
+            "as C16",
+        ],
+    },
 }
